@@ -1618,6 +1618,29 @@ V.append(dict(id="c06-new-python-operator-op-without-typing-rule", prop="C06", k
 silent("c06-s-sub-gets-a-typing-rule-of-its-own", "C06", "funsor/domains.py", "<<EOF>>",
        "\n\n@find_domain.register(ops.SubOp)\ndef _find_domain_sub(op, lhs, rhs):\n    if lhs.dtype == \"real\" and rhs.dtype == \"real\":\n        return Array[\"real\", broadcast_shape(lhs.shape, rhs.shape)]\n    raise NotImplementedError(\"TODO\")\n")
 
+# ---- round 14 (compact: C09 C10 C12 C14 C19)
+fire("c09-r14-plate-scales-added", "C09", "funsor/sum_product.py",
+     "                        scale = reduce(ops.mul, f_scales)\n                        f = pow_op(f, scale)\n                results.append(f)\n",
+     "                        scale = reduce(ops.add, f_scales)\n                        f = pow_op(f, scale)\n                results.append(f)\n", "R09.4", "partial_sum_product")
+fire("c09-r14-partition-members-in-a-set", "C09", "funsor/sum_product.py",
+     "        component_terms = tuple(terms[v] for v in component if isinstance(v, int))\n",
+     "        members = set(terms[v] for v in component if isinstance(v, int))\n        component_terms = tuple(term for term in terms if term in members)\n", "R09.9", "_partition")
+silent("c09-r14-s-partition-positions-sorted", "C09", "funsor/sum_product.py",
+     "        component_terms = tuple(terms[v] for v in component if isinstance(v, int))\n",
+     "        positions = sorted(v for v in component if isinstance(v, int))\n        component_terms = tuple(terms[v] for v in positions)\n")
+fire("c14-r14-delta-subs-last-term-wins", "C14", "funsor/delta.py",
+     "                    log_densities.append(is_equal.log() + log_density)\n",
+     "                    log_densities = [is_equal.log() + log_density]\n", "R14.14", "eager_subs")
+silent("c14-r14-s-delta-subs-running-sum", "C14", "funsor/delta.py",
+     "                    log_densities.append(is_equal.log() + log_density)\n",
+     "                    log_densities = log_densities + [is_equal.log() + log_density]\n")
+fire("c10-r14-remainder-only-with-time-input", "C10", "funsor/sum_product.py",
+     "    if duration % num_segments and duration - duration % num_segments > 0:\n",
+     "    if time in trans.inputs and duration % num_segments and duration - duration % num_segments > 0:\n", "R10.2", "mixed_sequential_sum_product")
+silent("c10-r14-s-remainder-test-reordered", "C10", "funsor/sum_product.py",
+     "    if duration % num_segments and duration - duration % num_segments > 0:\n",
+     "    if duration - duration % num_segments > 0 and duration % num_segments != 0:\n")
+
 # ===== derived variants: must stay at the END of this file (they enumerate every rename() variant above) =====
 # `if c: A else: B` -> `if not c: B else: A` in the anchor functions (behaviour-preserving)
 def invert(prop, file, qual):
